@@ -95,6 +95,24 @@ def fockApply (j : Json) : R Json := do
     -- `state` = old mixed register state (rank 2n), `mat` = the prepared density matrix (rank 2k, interleaved)
     let σ := tensOfArray D (2 * ms.length) m
     pure <| jarr ((arrayOfTens D (2 * n) (prepareSome D n ms σ (tensOfArray D (2 * n) st))).map jGInt)
+  | "dealloc", ms => do
+    let isPure := getBoolD j "pure" true
+    let r := if isPure then n else 2 * n
+    pure <| jarr ((arrayOfTens D (2 * (n - ms.eraseDups.length))
+      (dealloc GInt.conj D n isPure ms (tensOfArray D r st))).map jGInt)
+  | "alloc", ms => do
+    let isPure := getBoolD j "pure" true
+    let k := ms.length
+    let r := if isPure then n else 2 * n
+    let r' := if isPure then n + k else 2 * (n + k)
+    pure <| jarr ((arrayOfTens D r' (allocVac isPure n k (tensOfArray D r st))).map jGInt)
+  | "channel1", [m1] => do
+    -- `mat` holds the Kraus operators one after the other (each D×D)
+    let nk := m.size / (D * D)
+    let ks := (List.range nk).map fun t =>
+      let a := (m.extract (t * D * D) ((t + 1) * D * D))
+      (mat2 D a, mat2 D (a.map GInt.conj))
+    pure <| jarr ((arrayOfTens D (2 * n) (applyChannel1 D ks m1 (tensOfArray D (2 * n) st))).map jGInt)
   | "axisLists", ms =>
     pure <| Json.mkObj [("pure", natList (blasList n ms)), ("mixed", natList (blasListMixed n ms)),
       ("purePerm", Json.bool (isPermList (blasList n ms) n)),
